@@ -1,6 +1,6 @@
 #!/bin/bash
 # tools/thorough.sh <Cnn...> — runs the thorough tier of the given checks one after another, one status line each.
-cd /verif
+cd "$(dirname "$0")/.." # the tree this script is in: /verif, or a `vp run` snapshot of it
 for p in "$@"; do
   n=$(echo $p | tr 'C' 'c')
   t0=$(date +%s)
